@@ -30,4 +30,4 @@ Separate Extraction
   ix_propagate_staked ix_migrate_curve ix_group_set_caps ix_init_staked_settings
   ix_edit_staked_settings es_zeroed account_health account_health_no_emode probe_position apply_reqs
   OP_KILLED DEFAULT_INIT_MAX_EMODE_LEVERAGE DEFAULT_MAINT_MAX_EMODE_LEVERAGE
-  pstep zeros dv_tx configure_withdrawal_limit positions wrun.
+  pstep zeros dv_tx dv_purge configure_withdrawal_limit positions wrun.
